@@ -16,7 +16,7 @@ Record obs := Obs {
   o_events : list event;
   o_accounts : list (N * Z);
   o_pools : list (N * Z);
-  o_contracts : list (N * (N * Z * Z));     (* id, (revision number, renter output, host output) *)
+  o_contracts : list (N * (N * Z * Z * bool));     (* id, (revision number, renter output, host output, revisable) *)
 }.
 
 Record case := mk_case {
@@ -27,9 +27,10 @@ Record case := mk_case {
 
 Definition zlist_eqb (a b : list Z) : bool := bool_decide (a = b).
 
-Definition check_contract (s : st) (x : N * (N * Z * Z)) : bool :=
+Definition check_contract (s : st) (x : N * (N * Z * Z * bool)) : bool :=
   match contracts s !! x.1 with
-  | Some c => let '(n, r, h) := x.2 in N.eqb (c_revnum c) n && Z.eqb (c_renter c) r && Z.eqb (c_host c) h
+  | Some c => let '(n, r, h, rv) := x.2 in
+      N.eqb (c_revnum c) n && Z.eqb (c_renter c) r && Z.eqb (c_host c) h && Bool.eqb (c_revisable c) rv
   | None => false
   end.
 
